@@ -62,6 +62,11 @@ func runC33(c *Ctx) {
 		}
 	}
 	if lookup == nil {
+		if h := movedInto(fn, func(ci ssa.CallInstruction) bool {
+			return ci.Common().IsInvoke() && ci.Common().Method.Name() == "DRepDelegation"
+		}); h != nil {
+			c.Undecided("%s: the DRep-delegation lookup lives in helper %s; the gate rules are intraprocedural and were not re-derived for this shape", key, h.Name())
+		}
 		c.Bad("pv-gate", key, fn.Pos(), "the rule never asks the ledger state for a DRep delegation")
 		return
 	}
@@ -84,6 +89,12 @@ func runC33(c *Ctx) {
 		}
 	}
 	if atom == "" {
+		if h := movedInto(fn, func(ci ssa.CallInstruction) bool {
+			cc := ci.Common()
+			return (cc.IsInvoke() && cc.Method.Name() == "ProtocolMajorVersion") || (cc.StaticCallee() != nil && cc.StaticCallee().Name() == "ProtocolMajorVersion")
+		}); h != nil {
+			c.Undecided("%s: the protocol version is read in helper %s; the gate rules are intraprocedural and were not re-derived for this shape", key, h.Name())
+		}
 		c.Bad("pv-gate", key, fn.Pos(), "the rule does not read the protocol major version")
 		return
 	}
